@@ -295,7 +295,8 @@ func core(r *vk.Run) {
 				break
 			}
 			if in != nil {
-				// the caller is free to reuse its message
+				// the caller is free to reuse its message: through the pointers and byte slices it holds, then field by field
+				r.Count("core-scribbles-through-pointers", vk.PokeThroughPointers(in))
 				for k := 0; k < 3; k++ {
 					vk.Mutate(rng, in, gen)
 				}
